@@ -802,6 +802,8 @@ def _impl_roundtrip_tok(inp):
 def _gen_rt(r):
     cfg = gen_cfg(r)
     tracks = gen_piece(r, cfg, valid=r.random() < 0.8)
+    if r.random() < 0.04:       # a wrong number of sequences for the configured number of tracks
+        tracks = tracks[:-1] if r.random() < 0.5 else tracks + [tracks[0]]
     # tracks without a trailing rest can be handed over through the absolute view as well
     hows = [r.choice(["rel", "rel", "abs", "abs0", "read"]) if not (ms and ms[-1][0] == "WAIT") else r.choice(["rel", "read"])
             for ms in tracks]
@@ -1147,6 +1149,8 @@ def _exec(ops, upto=None, trace=True, return_store=False, hook=None):
                     store[o[3]].abs
                     store[o[3]].rel
                 store[o[1]].scale(1 / o[2], meta_sequence=None if o[3] is None else store[o[3]], quantise_afterwards=o[4])
+            elif k == "OScaleFrac":       # a factor that is neither an integer nor the inverse of one: rejected
+                store[o[1]].scale(o[2] / o[3], quantise_afterwards=o[4])
             elif k == "OQuantDefault":
                 store[o[1]].quantise()
             elif k == "OQnlDefault":
@@ -1282,6 +1286,8 @@ def lit_op(o):
         meta = "None" if o[3] is None else f"(Some {nat(o[3])})"
         then_ = f"[OQuantNorm {nat(o[1])} (get_default_step_sizes 0 0) get_default_note_values]" if o[4] else "[]"
         return f"HSCALEDOWN {nat(o[1])} {z(o[2])} {meta} {then_}"
+    if k == "OScaleFrac":
+        return f"HFAIL (OReadRel {nat(o[1])}) SeqErr"
     if k in ("OOverwriteAbs", "OOverwriteRel"):
         return f"{k} {nat(o[1])} {lit_msgs(o[2])}"
     if k in ("OSplit", "OQuantise"):
@@ -1309,7 +1315,7 @@ def lit_hops(ops):
     out = []
     for o in ops:
         l = lit_op(o)
-        out.append("HSeq " + l[4:] if l.startswith("HSEQ[") else "HScaleDown " + l[11:] if l.startswith("HSCALEDOWN ") else f"HOp ({l})")
+        out.append("HSeq " + l[4:] if l.startswith("HSEQ[") else "HScaleDown " + l[11:] if l.startswith("HSCALEDOWN ") else "HFail " + l[6:] if l.startswith("HFAIL ") else f"HOp ({l})")
     return "[" + "; ".join(out) + "]"
 
 
@@ -1345,9 +1351,12 @@ def gen_scale_down(r):
         ops.append((r.choice(["OReadAbs", "OReadRel", "ORefresh", "OPairings"]), r.randrange(n)))
     for _ in range(r.choice([1, 1, 2])):
         i = r.randrange(n)
-        ops.append(("OScaleDown", i, r.choice([2, 2, 2, 4]), r.choice([None, i, i, r.randrange(n)]), r.random() < 0.5))
-        if not _integral(ops):
-            ops.pop()
+        if r.random() < 0.12:
+            ops.append(("OScaleFrac", i) + r.choice([(3, 2), (2, 5), (3, 10), (5, 2), (2, 3)]) + (r.random() < 0.5,))
+        else:
+            ops.append(("OScaleDown", i, r.choice([2, 2, 2, 4, 3]), r.choice([None, i, i, r.randrange(n)]), r.random() < 0.5))
+            if not _integral(ops):
+                ops.pop()
         ops.append((r.choice(["OReadAbs", "OReadRel"]), i))
         k2 = r.choice(["OReadAbs", "OReadRel", "ODuration", "OTranspose"])
         ops.append((k2, r.randrange(n)) + ((1,) if k2 == "OTranspose" else ()))
